@@ -10,7 +10,8 @@ from vfw.hspec import B, H, I, bind
 
 ON = [icontract.InvariantCheckEvent.CALL, icontract.InvariantCheckEvent.SETATTR, icontract.InvariantCheckEvent.ALL]
 STEPS = ["subclass_plain", "subclass_override_pre_post", "subclass_own_invariant", "subclass_override_snapshot_post",
-         "class_two_bases", "decorate_fresh_function", "decorate_same_bare_again", "subclass_override_bare"]
+         "class_two_bases", "decorate_fresh_function", "decorate_same_bare_again", "subclass_override_bare",
+         "class_with_mixin_own_invariant"]
 
 
 class World:
@@ -92,6 +93,12 @@ class World:
                 if other is base or issubclass(base, other) or issubclass(other, base):
                     return "skipped"
                 classes.append(self.new_class(self.fresh_name("M"), (base, other), override=(on == 1), pre=(on == 1)))
+            elif what == "class_with_mixin_own_invariant":
+                # class X(base, Mixin) / class X(Mixin, base) with a fresh contract-less DBC mixin, then an own invariant
+                mixin = icontract.DBCMeta(self.fresh_name("Mixin"), (icontract.DBC,), {})
+                bases = (base, mixin) if k % 2 == 0 else (mixin, base)
+                cls = self.new_class(self.fresh_name("X"), bases, override=False)
+                classes.append(self.add_invariant(cls, on))
             elif what == "decorate_fresh_function":
                 n = self.fresh_name("g")
 
